@@ -48,7 +48,10 @@ PROP = dict(
     ],
     assumptions=[
         "sources are drawn from the modelled fragment: lambda core, tuples, //name, import syntax (local files), macros whose "
-        "transform is closed, //eval.value, //eval.eval, //eval.evaluator, dynamic variables @{x}; arrays, sets, operators, "
+        "transform mentions its parameter, enclosing let names and `.`, //eval.value, //eval.eval, //eval.evaluator, dynamic "
+        "variables @{x}; a named parse-time binding is evaluated by Go in the scope of the lookup and by the model in the "
+        "parse-time scope of the binding (ExprClosure semantics, exact for `.`): generated names (let v<depth>, transform "
+        "parameter a<depth>) exclude the two cases where these differ; arrays, sets, operators, "
         "patterns are not generated; about 7% of the drawn programs are re-drawn because the model does not determine their "
         "outcome (calling a string, a library function on arguments it may reject)",
         "configurations are tuples of members of the full library and small closures; errors and panics are both observed as `fail` "
@@ -57,17 +60,20 @@ PROP = dict(
         "files are read only from an in-memory file system",
     ],
     level_text="Proof: Lean theorems about a capability-tagged evaluator transliterating EvalWithScope, contextualEval, evalExpr, "
-               "PackageExpr.Eval (with its fall-back to the full library), ImportExpr.Eval, the import branch of compilePackage and "
-               "parse-time macro expansion: for every source (all nesting depths of quotation), configuration, fuel and context, the "
-               "result of sandboxed evaluation reaches, and its evaluation exercises, only capabilities the configuration handed over "
-               "(invariant preserved by every rule); `//x` outside the given library fails; import syntax is rejected; the safe library "
-               "table reaches no file-reading, network or command capability (decide over the table); each of the repairs is shown "
-               "necessary by a concrete escaping program in the model with that repair switched off. Partial for one route left "
-               "open in the tree (KF-dynvar-leak: the caller's dynamic variables @{x} cross the sandbox boundary): confinement is "
-               "proved for every calling context whose dynamic variables are within bounds, shown false without that hypothesis, "
-               "and proved at full strength for the specification semantics. Tables are tied to /repo by facts "
-               "regenerated on every run (library paths, wrapper scripts, every evaluation/scope-reset/effect call site) and the model "
-               "to the code by running generated escape attempts through both entry points.",
+               "PackageExpr.Eval (with its fall-back to the full library), ImportExpr.Eval, the import branch of compilePackage, "
+               "parse-time macro expansion with the parser's bind hook (the parse-time scope threaded through compilation: a macro's "
+               "transform may use names bound by enclosing lets and `.`), dynamic variables and the dynamic-scope barrier of "
+               "withSandbox: for every source (all nesting depths of quotation), configuration, fuel and calling context, the result "
+               "of sandboxed evaluation reaches, and its evaluation exercises, only capabilities the configuration handed over "
+               "(invariant preserved by every rule), and never opens a file through import syntax; `//x` outside the given library "
+               "fails; for the direct entry EvalWithScope(src, SafeStdScope()) - where import syntax is allowed - the result reaches "
+               "only the safe library whatever the imported files contain, calls exercise only its capabilities, and the importer "
+               "opens only files named by import syntax in the source or transitively in imported files; the safe library table "
+               "reaches no file-reading, network or command capability (decide over the table); each repair (six, including the "
+               "parse-time scope seeded from the library in effect and the dynamic-variable barrier) is shown necessary by a concrete "
+               "escaping program in the model with that repair switched off. Tables are tied to /repo by facts regenerated on every "
+               "run (library paths, wrapper scripts, every evaluation/scope-reset/effect call site) and the model to the code by "
+               "running generated escape attempts through both entry points.",
     design_ref="DESIGN.md section 6, C18",
     watch=["syntax.EvalWithScope", "syntax.EvaluateExpr", "syntax.evalExpr", "syntax.contextualEval", "syntax.parseEvalConfig",
            "syntax.PackageExpr.Eval", "syntax.ImportExpr.Eval", "syntax.ParseContext.compilePackage", "syntax.ParseContext.unpackMacro",
